@@ -11,6 +11,7 @@ mod opq;
 mod real;
 mod bez;
 mod scen;
+mod symi;
 mod vecs;
 
 use std::io::Write;
@@ -59,8 +60,9 @@ fn main() {
                     for l in &lines { writeln!(f, "{}", l).unwrap(); }
                     let (tq, tt) = sc.timeout.unwrap_or((0, 0));
                     results.lock().unwrap().push(format!(
-                        "{{\"name\":{},\"prop\":{},\"file\":{},\"paths\":{},\"panicked\":{},\"aborted\":{},\"bounded_out\":{},\"goals\":{},\"decisions\":{},\"nodes\":{},\"explore_s\":{:.3},\"timeout_q\":{},\"timeout_t\":{},\"has_f64\":{},\"has_cn\":{},\"funcs\":{}}}",
+                        "{{\"name\":{},\"prop\":{},\"file\":{},\"paths\":{},\"panicked\":{},\"aborted\":{},\"bounded_out\":{},\"goals\":{},\"decisions\":{},\"nodes\":{},\"explore_s\":{:.3},\"timeout_q\":{},\"timeout_t\":{},\"has_f64\":{},\"has_cn\":{},\"extra\":{},\"funcs\":{}}}",
                         emit::jstr(&sc.name), emit::jstr(sc.prop), emit::jstr(&fname), st.paths, st.panicked, st.aborted, st.bounded_out, st.goals, st.decisions, st.nodes, t0.elapsed().as_secs_f64(), tq, tt, sc.f64_.is_some(), sc.cn.is_some(),
+                        emit::jlist(&sc.extra.iter().map(|(n, p, _)| format!("[{},{}]", emit::jstr(n), emit::jstr(p))).collect::<Vec<_>>()),
                         emit::jlist(&sc.funcs.iter().map(|f| emit::jstr(f)).collect::<Vec<_>>())));
                 }).unwrap());
             }
